@@ -28,7 +28,7 @@ func genPlumb(sh *Shape) {
 	case "uncurry":
 		inner := funcType(pt[1:], rtys)
 		fmt.Fprintf(&b, "func gimpl(x0 %s) %s {\n\ti := rt.Enter(1, %s(x0))\n\trt.Exit(i, 0)\n", pt[0], inner, kinds[kp[0]].pr)
-		fmt.Fprintf(&b, "\treturn func(%s)%s {\n", paramDecl(xs(n - 1), pt[1:]), results(rtys))
+		fmt.Fprintf(&b, "\treturn func(%s)%s {\n", paramDecl(xs(n-1), pt[1:]), results(rtys))
 		b.WriteString("\t" + enterLine(2, kp[1:], kinds))
 		b.WriteString("\t" + exitLine(0, c.Fres))
 		b.WriteString("\t" + retLine(mkVals(c.Fres, kr, kinds)))
